@@ -78,10 +78,8 @@ def check_lookup(ctx, prog, R, fn):
         ctx.check(bool(a1) and all(is_role_origin(prog, R, fn, o, "KEY_BYTES_AT") for o in a1), "lookup-by-full-key", "cmp-arg-is-stored-key",
                   "the bytes compared with the caller's key are not the stored key bytes read at the candidate offset (%s)" % a1,
                   where=where(fn, b), expected="result of %s" % bytes_at.name)
-        for sw in enum_switches(prog, fn):
-            if sw["src"] and all(o.kind == "call" and o.block == b for o in sw["src"]):
-                if 0 in sw["targets"]:
-                    equal_entries.append(sw["targets"][0])
+        from .util import variant_entries
+        equal_entries += variant_entries(prog, fn, lambda src, b=b: all(o.kind == "call" and o.block == b for o in src), "Equal", discr=0)
     ctx.check(bool(equal_entries), "lookup-by-full-key", "equal-arm", "no match on the Ordering returned by cmp_u8 with an Equal arm", where=where(fn))
     if equal_entries and somes:
         r_all = flag_reach(fn)
